@@ -81,6 +81,15 @@ class PairList:
         self.a0, self.a1, self.length = a0, a1, length
 
 
+class Opaque:
+    """Value of an expression outside the subset, in `opaque_ok` (block extraction) mode: completely unconstrained.  Every integer / boolean
+    observation of it is a fresh unconstrained term, so whatever the real expression computes is covered (sound over-approximation for
+    safety properties, provided the expression has no side effect and does not raise -- listed as dropped by the extraction)."""
+
+    def __init__(self, what=""):
+        self.what = what
+
+
 I = z3.IntSort()
 A1 = z3.ArraySort(I, I)
 A2 = z3.ArraySort(I, A1)
@@ -119,6 +128,10 @@ def fresh_like(name, v):
 
 
 def as_int(v):
+    if isinstance(v, Opaque):
+        return fresh("opaque")
+    if z3.is_bool(v):
+        return z3.If(v, z3.IntVal(1), z3.IntVal(0))
     if isinstance(v, bool):
         return z3.IntVal(1 if v else 0)
     if isinstance(v, int):
@@ -127,6 +140,8 @@ def as_int(v):
 
 
 def as_bool(v):
+    if isinstance(v, Opaque):
+        return fresh("opaqueb", z3.BoolSort())
     if isinstance(v, bool):
         return z3.BoolVal(v)
     if z3.is_bool(v):
@@ -148,9 +163,19 @@ class ExprEval:
 
     def ev(self, node):
         m = getattr(self, "ev_" + type(node).__name__, None)
+        opaque_ok = self.engine is not None and getattr(self.engine, "opaque_ok", False)
         if m is None:
+            if opaque_ok:
+                self.engine.opaque_log.append(ast.unparse(node)[:80])
+                return Opaque(ast.unparse(node)[:40])
             raise Unsupported("expression %s" % type(node).__name__)
-        return m(node)
+        if not opaque_ok:
+            return m(node)
+        try:
+            return m(node)
+        except Unsupported:
+            self.engine.opaque_log.append(ast.unparse(node)[:80])
+            return Opaque(ast.unparse(node)[:40])
 
     def ev_Constant(self, n):
         if isinstance(n.value, bool):
@@ -173,6 +198,10 @@ class ExprEval:
 
     def ev_UnaryOp(self, n):
         v = self.ev(n.operand)
+        if isinstance(n.op, ast.USub) and isinstance(v, Small) and len(v.shape) == 1:
+            out = Small(v.shape)
+            out.data = [-as_int(x) for x in v.data]
+            return out
         if isinstance(n.op, ast.USub):
             return -as_int(v)
         if isinstance(n.op, ast.Not):
@@ -258,6 +287,11 @@ class ExprEval:
                 out = z3.If(as_int(i) == k, as_int(base[k]), out)
             return out
         if isinstance(base, Arr2):
+            if len(idx) == 1 and not isinstance(idx[0], ast.Slice):
+                w = z3.simplify(as_int(base.shape[1]))
+                if z3.is_int_value(w):
+                    i = as_int(self.ev(idx[0]))
+                    return tuple(base.get(i, z3.IntVal(j)) for j in range(w.as_long()))
             if len(idx) != 2:
                 raise Unsupported("row access of a 2-d array")
             s0, s1 = idx
@@ -369,6 +403,23 @@ class ExprEval:
             return z3.Implies(as_bool(self.ev(n.args[0])), as_bool(self.ev(n.args[1])))
         if name == "iff":
             return as_bool(self.ev(n.args[0])) == as_bool(self.ev(n.args[1]))
+        if name in ("max", "min") and len(n.args) == 1 and self.engine is not None:
+            v = self.ev(n.args[0])
+            if isinstance(v, Small) and len(v.shape) == 1:
+                v = tuple(v.data)
+            if isinstance(v, tuple) and v:
+                m = fresh(name)
+                items = [as_int(x) for x in v]
+                self.engine.curpath = self.engine.curpath + [z3.Or(*[m == x for x in items])] + [(m >= x if name == "max" else m <= x) for x in items]
+                return m
+            raise Unsupported("%s of this value" % name)
+        if name == "ones" and isinstance(f, ast.Attribute) and n.args:
+            k = z3.simplify(as_int(self.ev(n.args[0])))
+            if z3.is_int_value(k):
+                out = Small((k.as_long(),))
+                out.data = [z3.IntVal(1)] * k.as_long()
+                return out
+            raise Unsupported("np.ones of symbolic length")
         if name in ("min", "max") and len(n.args) == 2:
             a, b = as_int(self.ev(n.args[0])), as_int(self.ev(n.args[1]))
             return z3.If(a <= b, a, b) if name == "min" else z3.If(a >= b, a, b)
@@ -414,6 +465,9 @@ class Engine:
         self.obligations = []
         self.loop_count = 0
         self.counter = {}
+        self.opaque_ok = bool(contract.get("opaque_ok"))
+        self.opaque_log = []
+        self.curpath = []
 
     # -- helpers --------------------------------------------------------------------------------
     def _name(self, kind, line):
@@ -492,6 +546,9 @@ class Engine:
         for st in stmts:
             nxt = []
             for e, p in states:
+                if e.get("__continue__") or e.get("__break__"):
+                    nxt.append((e, p))          # this path left the loop body early
+                    continue
                 nxt.extend(self.exec_stmt(st, e, p))
             states = nxt
             if not states:
@@ -544,6 +601,12 @@ class Engine:
         if isinstance(st, ast.For):
             return self.exec_for(st, env, path)
         if isinstance(st, ast.Pass):
+            return [(env, path)]
+        if isinstance(st, (ast.Continue, ast.Break)):
+            if not getattr(self, "in_unrolled", 0):
+                raise Unsupported("continue / break outside an unrolled loop")
+            env = dict(env)
+            env["__continue__" if isinstance(st, ast.Continue) else "__break__"] = True
             return [(env, path)]
         raise Unsupported("statement %s" % type(st).__name__)
 
@@ -613,8 +676,27 @@ class Engine:
                     new.data[ks[0]][ks[1]] = as_int(val)
                 env[target.value.id] = new
                 return env
+            if isinstance(base, Arr1):
+                if len(idx) != 1 or isinstance(idx[0], ast.Slice):
+                    raise Unsupported("slice store into a 1-d array")
+                i = as_int(ee.ev(idx[0]))
+                self.bounds(i, base.length, path, line, target.value.id)
+                v = as_int(val)
+                env[target.value.id] = Arr1(lambda q, b=base, i=i, v=v: z3.If(q == i, v, b.get(q)), base.length)
+                return env
             if isinstance(base, Arr2):
                 s0, s1 = idx
+                if isinstance(s1, ast.Slice) and not isinstance(s0, ast.Slice) and s1.lower is None and s1.upper is None:
+                    row = tuple(val.data) if isinstance(val, Small) and len(val.shape) == 1 else val
+                    if not isinstance(row, tuple):
+                        raise Unsupported("row store of a non-tuple")
+                    i = as_int(ee.ev(s0))
+                    self.bounds(i, base.shape[0], path, line, target.value.id)
+                    new = base
+                    for c, v in enumerate(row):
+                        new = new.set(i, z3.IntVal(c), as_int(v))
+                    env[target.value.id] = new
+                    return env
                 if isinstance(s0, ast.Slice):
                     lo = 0
                     if s0.lower is not None:
@@ -671,15 +753,32 @@ class Engine:
         nv = z3.simplify(n)
         if spec is None:
             if z3.is_int_value(nv) and nv.as_long() <= 8 and mode == "range":
-                # complete unrolling
+                # complete unrolling (continue / break are followed per path)
                 states = [(env, path)]
-                for k in range(nv.as_long()):
-                    nxt = []
-                    for e, p in states:
-                        e = self.assign(st.target, z3.IntVal(k), e, p, st.lineno)
-                        nxt.extend(self.exec_block(st.body, e, p))
-                    states = nxt
-                return states
+                self.in_unrolled = getattr(self, "in_unrolled", 0) + 1
+                try:
+                    for k in range(nv.as_long()):
+                        nxt = []
+                        for e, p in states:
+                            if e.get("__break__"):
+                                nxt.append((e, p))
+                                continue
+                            e = self.assign(st.target, z3.IntVal(k), e, p, st.lineno)
+                            for e2, p2 in self.exec_block(st.body, e, p):
+                                if e2.get("__continue__"):
+                                    e2 = dict(e2)
+                                    del e2["__continue__"]
+                                nxt.append((e2, p2))
+                        states = nxt
+                finally:
+                    self.in_unrolled -= 1
+                out = []
+                for e, p in states:
+                    if e.get("__break__"):
+                        e = dict(e)
+                        del e["__break__"]
+                    out.append((e, p))
+                return out
             raise Unsupported("loop %d of %s has no invariant" % (ordinal, self.qual))
         # cut at the invariant
         assigned = sorted(self.assigned_names(st.body) - self.target_names(st.target))
